@@ -110,7 +110,13 @@ ActionBodies(ws) ==
     \cup { <<[kw |-> "WEFAC", well |-> w, f |-> 2], [kw |-> "WELOPEN", well |-> w2, status |-> "SHUT", conn |-> <<>>]>> : w \in W, w2 \in W }
     \cup { <<[kw |-> "WCONPROD", well |-> w, status |-> "OPEN", cmode |-> "ORAT", orat |-> 120, bhp |-> 60]>> : w \in ws }
     \cup { <<[kw |-> "GCONPROD", group |-> "G1", orat |-> 700]>>, <<[kw |-> "NEXTSTEP", v |-> 3]>> }
-    \cup { <<[kw |-> "WELPI", well |-> w, v |-> v]>> : w \in W, v \in {5, 9} }       \* (applied with the simulator's current PI of the well)
+    \cup { <<[kw |-> "WELPI", well |-> w, v |-> v]>> : w \in W, v \in {5, 9} }
+    \* WPIMULT for the whole well is collected over the body and applied when the body has been read: with a later
+    \* COMPDAT or a second WPIMULT in the same body (applied only at report steps without a WPIMULT of their own)
+    \cup { <<[kw |-> "WPIMULT", well |-> w, f |-> f]>> : w \in W, f \in {2, 3} }
+    \cup { <<[kw |-> "WPIMULT", well |-> w, f |-> 2], [kw |-> "COMPDAT", well |-> w2, i |-> c[1], j |-> c[2], k1 |-> c[3], k2 |-> c[3], state |-> "OPEN"]>> :
+               w \in W, w2 \in ws, c \in {<<1, 1, 1>>, <<2, 2, 2>>} }
+    \cup { <<[kw |-> "WPIMULT", well |-> w, f |-> 2], [kw |-> "WPIMULT", well |-> w2, f |-> 3]>> : w \in W, w2 \in W }       \* (applied with the simulator's current PI of the well)
 Actionx(name, body) ==
     /\ \A n \in 1..Len(body) : ("well" \in DOMAIN body[n] /\ body[n].well # "?") =>
             (HasWell(body[n].well) /\ st.wells[body[n].well].conns # {})
